@@ -248,6 +248,37 @@ def c16(run):
             got = [x for x in r.split(' ', 2)[2].split(',') if x] if r.startswith('err %s ' % f) or r == 'err %s' % f else None
             if got != leaves[:k + 1]:
                 run.fail(case, 'the first error returned by a leaf callback is not returned unchanged / leaves before it differ')
+    # TREE level: trees no source text parses to (one-word / zero-word proper names, NaN and negative literals, erased
+    # positions, inc by 0), obtained by rewriting the printed tree; walked on both sides from the tree itself
+    from . import trees
+    tsrc = [src for _, src, _ in progs_[:run.n(150, 3000)]]
+    pans = common.impl(['parse ' + hx(t) for t in tsrc])
+    tq, tmeta = [], []
+    for src, a in zip(tsrc, pans):
+        t = trees.tree_of(a)
+        if t is None:
+            continue
+        for lab, mt in trees.mutations(t, rng):
+            for f in ['-', str(rng.randint(0, 12))]:
+                tq.append('walkt %s %s' % (hx(mt), f))
+                tmeta.append((lab, mt, f))
+    tm, tim = run.tie(tq, functional=True, desc=lambda i: {'tree': tmeta[i][1][:1500], 'variant': tmeta[i][0], 'fail': tmeta[i][2], 'section': 'tree level'})
+    for lab, mt, f in tmeta:
+        run.case(('tree', mt, f), True, kind='tree-level:' + lab)
+    # ... and by the leaves-only visitor: its leaves are the leaf events of the model's walk of the same tree
+    lq = ['walkleaft %s -' % hx(mt) for (lab, mt, f) in tmeta if f == '-']
+    lexp = [a for (lab, mt, f), a in zip(tmeta, tm) if f == '-']
+    lmt = [(lab, mt) for (lab, mt, f) in tmeta if f == '-']
+    for (lab, mt), want, got in zip(lmt, lexp, common.impl(lq)):
+        if got == 'skipped' or not want.startswith('ok '):
+            continue
+        evs_ = [x for x in want[3:].split(' | ')[0].strip().split(',') if x]
+        leaves = [e for e in evs_ if is_leaf(e)]
+        g = [x for x in got[3:].strip().split(',') if x] if got.startswith('ok') else None
+        run.case(('tree-leaf', mt), True, kind='tree-level-leaves:' + lab)
+        if g != leaves:
+            run.fail({'tree': mt[:1500], 'variant': lab, 'answer': got[:400], 'expected_leaves': ','.join(leaves)[:400]},
+                     'a visitor overriding only leaf callbacks is not presented every leaf of the TREE exactly once in field order')
     # (a) deeply nested blocks (8 ... 600 levels: nothing may be skipped however deep), (b) ONE runner reused: K walks that fail
     # at callback W, then the reported walk -- a runner carries no state from walk to walk, so the answer is that of a fresh
     # `walk` (the model's, and the implementation's own `walk` answer)
@@ -822,6 +853,20 @@ def c19(run):
         cases.append((prog, src))
     reqs = ['lint ' + hx(src) for _, src in cases]
     m, im = run.tie(reqs, proj=lint_proj, functional=True, desc=lambda i: {'program': cases[i][1]})
+    # TREE level (trees no source text parses to): linted on both sides from the tree itself
+    from . import trees
+    pans = common.impl(['parse ' + hx(src) for _, src in cases[:run.n(200, 4000)]])
+    tq, tmeta = [], []
+    for a in pans:
+        t = trees.tree_of(a)
+        if t is not None:
+            for lab, mt in trees.mutations(t, rng):
+                tq.append('lintt ' + hx(mt)); tmeta.append((lab, mt))
+    tm, tim = run.tie(tq, proj=lint_proj, functional=True, desc=lambda i: {'tree': tmeta[i][1][:1500], 'variant': tmeta[i][0], 'section': 'tree level'})
+    for (lab, mt), r in zip(tmeta, tim):
+        run.case(('tree', mt), True, kind='tree-level:' + lab)
+        if r is not None and parse_lint(r) is None:
+            run.fail({'tree': mt[:1500], 'variant': lab, 'answer': r[:200]}, 'linting a syntax tree does not return normally: ' + r[:60])
     for (prog, src), r in zip(cases, im):
         if r is None:
             continue
